@@ -51,6 +51,11 @@ func emitGen(o *vcoq.Out, sc *scenario, r *runResult, extraTags []string) {
 		})
 		return
 	}
+	if r.stray != "" {
+		o.Directs = append(o.Directs, vcoq.Direct{What: r.stray, Class: "stray-item",
+			Replay: map[string]any{"id_interceptor_lower": sc.idLower, "program": jsProg(sc), "schedule": r.sched}})
+		return
+	}
 	prog := make([]string, len(sc.prog))
 	cands := make([]string, len(sc.prog))
 	reported := make([]string, len(sc.prog))
